@@ -39,3 +39,63 @@ Proof.
   injection Hrun as <-.
   exact (eating_bistochastic n (eat_item P) (eat_speed speeds) (eat_item_lt P Hn Hrows) (eat_speed_pos speeds Hsp) _ st El).
 Qed.
+
+(* ---------- termination, eating in order, SD-envy-freeness at profile level ---------- *)
+From SCK Require Import Eat3Term Eat3Envy.
+Lemma eat_item_row P i p : (i < length P)%nat -> eat_item P i p = nth p (argsort (nth i P [])) O.
+Proof. intros Hi. unfold eat_item. change (@nil nat) with (argsort []). rewrite map_nth. reflexivity. Qed.
+Lemma eat_item_surj P : (forall row, In row P -> length row = length P) ->
+  forall i j, (i < length P)%nat -> (j < length P)%nat -> exists p, (p < length P)%nat /\ eat_item P i p = j.
+Proof.
+  intros Hrows i j Hi Hj. assert (Hl : length (nth i P []) = length P) by (apply Hrows, nth_In; exact Hi).
+  pose proof (argsort_perm (nth i P [])) as Hp. rewrite Hl in Hp.
+  assert (Hin : In j (argsort (nth i P []))) by (eapply Permutation_in; [symmetry; exact Hp|apply in_seq; lia]).
+  destruct (In_nth _ _ O Hin) as [p [Hp1 Hp2]]. exists p. rewrite (Permutation_length Hp), seq_length in Hp1.
+  split; [exact Hp1|]. rewrite eat_item_row by exact Hi. exact Hp2.
+Qed.
+Lemma eat_item_inj P : (forall row, In row P -> length row = length P) ->
+  forall i p p', (i < length P)%nat -> (p < length P)%nat -> (p' < length P)%nat -> eat_item P i p = eat_item P i p' -> p = p'.
+Proof.
+  intros Hrows i p p' Hi Hp Hp' E. rewrite !eat_item_row in E by exact Hi.
+  assert (Hl : length (nth i P []) = length P) by (apply Hrows, nth_In; exact Hi).
+  pose proof (argsort_perm (nth i P [])) as Hperm. rewrite Hl in Hperm.
+  assert (Hnd : NoDup (argsort (nth i P []))) by (eapply Permutation_NoDup; [symmetry; exact Hperm|apply seq_NoDup]).
+  assert (Hlen : length (argsort (nth i P [])) = length P) by (rewrite (Permutation_length Hperm); apply seq_length).
+  rewrite (NoDup_nth _ O) in Hnd. apply Hnd; [lia|lia|exact E].
+Qed.
+
+Theorem C05_run_terminates P speeds : let n := length P in
+  (1 <= n)%nat -> (forall row, In row P -> length row = n) -> (forall s, In s speeds -> 0 < s) ->
+  exists Xm, eating_run P speeds = Some Xm.
+Proof.
+  intros n Hn Hrows Hsp. unfold eating_run. fold n.
+  destruct (eating_terminates n (eat_item P) (eat_speed speeds) (eat_item_lt P Hn Hrows) (eat_speed_pos speeds Hsp) (eat_item_surj P Hrows)) as [st H].
+  rewrite H. eauto.
+Qed.
+
+(* every state the process passes through: an agent that is not full sits on its best non-exhausted item, and the
+   step adds t * speed to exactly that entry of its row *)
+Theorem C05_run_eats_in_order P speeds st i e : let n := length P in
+  (1 <= n)%nat -> (forall row, In row P -> length row = n) -> (forall s, In s speeds -> 0 < s) ->
+  reach n (eat_item P) (eat_speed speeds) st -> finished n st = false -> (i < n)%nat -> nth i (eaten st) None = Some e ->
+  exists p, nth i (pos st) None = Some p /\ (p < n)%nat /\ nth (eat_item P i p) (rem st) None <> None /\
+            (forall q, (q < p)%nat -> nth (eat_item P i q) (rem st) None = None) /\
+            forall t j, (j < n)%nat -> step_time n (eat_item P) (eat_speed speeds) st = Some t ->
+              E (nextst n (eat_item P) (eat_speed speeds) st t) i j == E st i j + (if (eat_item P i p =? j)%nat then t * eat_speed speeds i else 0).
+Proof.
+  intros n Hn Hrows Hsp. exact (eating_in_order n (eat_item P) (eat_speed speeds) (eat_item_lt P Hn Hrows) (eat_speed_pos speeds Hsp) (eat_item_surj P Hrows) st i e).
+Qed.
+
+(* equal speeds: agent i holds at least as much of its q best items as any other agent k does *)
+Theorem C05_run_sd_envy_free P speeds s Xm : let n := length P in
+  (1 <= n)%nat -> (forall row, In row P -> length row = n) -> (forall x, In x speeds -> 0 < x) ->
+  (forall i, (i < n)%nat -> eat_speed speeds i = s) ->
+  eating_run P speeds = Some Xm ->
+  forall i k q, (i < n)%nat -> (k < n)%nat -> (q <= n)%nat ->
+    sumQ (fun p => nth (eat_item P i p) (nth k Xm []) 0) (seq 0 q) <= sumQ (fun p => nth (eat_item P i p) (nth i Xm []) 0) (seq 0 q).
+Proof.
+  intros n Hn Hrows Hsp Heq Hrun. unfold eating_run in Hrun. fold n in Hrun.
+  destruct (eloop n (eat_item P) (eat_speed speeds) (2 * n + 2) (einit n)) as [st|] eqn:El; [|discriminate]. injection Hrun as <-.
+  exact (eating_sd_envy_free n (eat_item P) (eat_speed speeds) s (eat_item_lt P Hn Hrows) (eat_speed_pos speeds Hsp)
+           (eat_item_surj P Hrows) (eat_item_inj P Hrows) Heq _ st El).
+Qed.
